@@ -192,7 +192,7 @@ def main(argv=None):
 
     # ------------------------------------------------------------------ replay of counter-models on the real code
     os.makedirs(os.path.join(EVDIR, 'replays'), exist_ok=True)
-    violations, known_hits, spurious, benign = [], [], [], []
+    violations, known_hits, spurious, benign, benign_n = [], [], [], [], []
     groups = {}
     for o in refuted:
         key = (o['harness'], o['name'], json.dumps(o['config'], sort_keys=True))
@@ -253,6 +253,7 @@ def main(argv=None):
         elif o['kind'] == 'safety' and verdict in ('not-reproduced', 'model-violates-precondition-natively'):
             # an intermediate value is undefined (0/0 ...) on the counter-model, but on the real code no clause of the property fails
             # and nothing is raised: the undefined value does not reach anything the property observes (e.g. a discarded ratio)
+            benign_n.append(len(groups[(o['harness'], o['name'], json.dumps(o['config'], sort_keys=True))]))
             benign.append(f"{o['harness']}{json.dumps(o['config'], sort_keys=True)}: {o['name']}: undefined intermediate value does not reach the result (native run: all clauses hold); see {path}")
         elif verdict == 'no-replay':
             violations.append((o, path, ' no-failing-input-found'))
@@ -308,12 +309,15 @@ def main(argv=None):
                             backend=o['backend'], seconds=o['time'], path_condition_conjuncts=o['size']))
     functions = sorted({f for _, h in harnesses for f in h.get('functions', [])})
     executed = sorted(touched)
-    declared_not_executed = [f for f in functions if f not in touched]
+    declared_not_executed = [f for f in functions if f not in touched and '<' not in f and '*' not in f]
+    patched = sorted({x for r in results if not r['error'] for x in r.get('patched', [])})
+    n_benign = 0
     ev = dict(
         property_id=pid, tier=tier, seed=seed, level=level,
         coverage=dict(
             obligations=nob, discharged=discharged, refuted_known_findings=n_known,
-            refuted_undefined_intermediates_not_reaching_the_result=len(benign),
+            refuted_undefined_intermediates_not_reaching_the_result=sum(benign_n),
+            assumed_contracts_on_callees=[f'{x} (replaced by a harness-provided contract: H.patch)' for x in patched],
             refuted_new=sum(len(groups[(o['harness'], o['name'], json.dumps(o['config'], sort_keys=True))]) for o, _, _ in violations),
             undecided=len(undecided) + len(spurious),
             checker_cmd=f'python3-vt -m pyvc.check {pid} --tier {tier}',
